@@ -365,7 +365,7 @@ func rulesC07(c *Ctx) {
 		}
 		c.Pin("fail sites after checkResponse in Write", n, 1)
 	})
-	c.Import("R-C07-9", "a 2026-07-28 exchange is never primed as a resumable stream: the priming event would precede the HTTP status the new protocol maps errors to, the client would try to resume, and the freshly negotiated session would be marked failed", "C08", "R-C08-9", nil)
+	c.Rule("R-C07-9", "a 2026-07-28 exchange is never primed as a resumable stream: the priming event would precede the HTTP status the new protocol maps errors to, the client would try to resume, and the freshly negotiated session would be marked failed (the rule body of R-C08-9)", func() { ruleEventStoreBound(c) })
 	c.Import("R-C07-7", "a server/discover POST that does not reach the server is a per-message rejection (the session survives and falls back to initialize)", "C13", "R-C13-5", func(k string) bool { return strings.HasPrefix(k, "Write:") })
 
 	c.Rule("R-C07-3", "the client accepts a session only after verifying the negotiated version, closes the session on every failed handshake step, and falls back to a legacy table entry", func() {
